@@ -67,8 +67,8 @@ var bigNums = []string{
 }
 
 func pick(t *rapid.T, xs []string) string { return rapid.SampledFrom(xs).Draw(t, "pick") }
-func oneIn(t *rapid.T, n int) bool       { return rapid.IntRange(0, n-1).Draw(t, "oneIn") == 0 }
-func upTo(t *rapid.T, lo, hi int) int    { return rapid.IntRange(lo, hi).Draw(t, "n") }
+func oneIn(t *rapid.T, n int) bool        { return rapid.IntRange(0, n-1).Draw(t, "oneIn") == 0 }
+func upTo(t *rapid.T, lo, hi int) int     { return rapid.IntRange(lo, hi).Draw(t, "n") }
 
 func randDigits(t *rapid.T, lo, hi int) string {
 	n := upTo(t, lo, hi)
@@ -125,6 +125,7 @@ type grammar struct {
 	local   func(*rapid.T) string
 	rev     func(*rapid.T) string
 	trail   func(*rapid.T) string
+	swapTag bool                // a suffix tag may be replaced by any other tag of the pool
 	fix     func(*Ver)          // re-establishes cross-field constraints after a mutation
 	pairFix func(a Ver, b *Ver) // canonical legs: constraints between the versions of a pair
 }
@@ -284,9 +285,12 @@ func semverLead(eco string) func(*rapid.T) string {
 func semverValid(eco string) *grammar {
 	k := numKind{zeros: false, big: true}
 	return &grammar{
-		lead: semverLead(eco), minNums: 3, maxNums: 3, sep: dot,
-		num:   func(t *rapid.T, _ int) string { return genNum(t, k) },
-		sufs:  func(t *rapid.T) []Suf { return semverPre(t, func(t *rapid.T) string { return genNum(t, k) }, semverIDs) },
+		swapTag: true,
+		lead:    semverLead(eco), minNums: 3, maxNums: 3, sep: dot,
+		num: func(t *rapid.T, _ int) string { return genNum(t, k) },
+		sufs: func(t *rapid.T) []Suf {
+			return semverPre(t, func(t *rapid.T) string { return genNum(t, k) }, semverIDs)
+		},
 		local: semverBuild,
 	}
 }
@@ -297,7 +301,8 @@ func semverCanon(eco string) *grammar {
 		lead = func(*rapid.T) string { return "v" }
 	}
 	return &grammar{
-		lead: lead, minNums: 3, maxNums: 3, sep: dot,
+		swapTag: true,
+		lead:    lead, minNums: 3, maxNums: 3, sep: dot,
 		num:   func(t *rapid.T, _ int) string { return genCanonNum(t) },
 		sufs:  func(t *rapid.T) []Suf { return semverPre(t, genCanonNum, semverCanonIDs) },
 		local: semverCanonBuild,
@@ -309,6 +314,7 @@ func semverCanon(eco string) *grammar {
 func nugetValid() *grammar {
 	k := numKind{zeros: true, big: true}
 	return &grammar{
+		swapTag: true,
 		minNums: 2, maxNums: 4, sep: dot,
 		num: func(t *rapid.T, _ int) string { return genNum(t, k) },
 		sufs: func(t *rapid.T) []Suf {
@@ -320,6 +326,7 @@ func nugetValid() *grammar {
 
 func nugetCanon() *grammar {
 	return &grammar{
+		swapTag: true,
 		minNums: 2, maxNums: 4, sep: dot,
 		num:   func(t *rapid.T, _ int) string { return genCanonNum(t) },
 		sufs:  func(t *rapid.T) []Suf { return semverPre(t, genCanonNum, semverCanonIDs) },
@@ -336,8 +343,12 @@ func pypiValid() *grammar {
 	k := numKind{zeros: true, big: true}
 	seps := []string{"", "", ".", "-", "_"}
 	return &grammar{
-		lead:    func(t *rapid.T) string { return rapid.SampledFrom([]string{"", "", "", "", "", "v", "V", " "}).Draw(t, "lead") },
-		epoch:   func(t *rapid.T) string { return pick(t, []string{"", "", "", "", "0!", "1!", "2!", "01!", "99999999999999999999!"}) },
+		lead: func(t *rapid.T) string {
+			return rapid.SampledFrom([]string{"", "", "", "", "", "v", "V", " "}).Draw(t, "lead")
+		},
+		epoch: func(t *rapid.T) string {
+			return pick(t, []string{"", "", "", "", "0!", "1!", "2!", "01!", "99999999999999999999!"})
+		},
 		minNums: 1, maxNums: 4, sep: dot,
 		num: func(t *rapid.T, _ int) string { return genNum(t, k) },
 		sufs: func(t *rapid.T) []Suf {
@@ -416,46 +427,76 @@ func pypiCanon() *grammar {
 // Maven -------------------------------------------------------------------------------
 
 var mavenTags = []string{"alpha", "beta", "milestone", "rc", "cr", "snapshot", "ga", "final", "release", "sp",
-	"a", "b", "m", "SNAPSHOT", "RC", "Final", "foo", "xyz", "jre", "android", "", "", ""}
+	"a", "b", "m", "SNAPSHOT", "RC", "Final", "foo", "xyz", "jre", "android"}
 
+// mavenValid is the standard Maven layout: a dotted numeric release followed by hyphen-
+// or transition-separated qualifiers and numbers ("1.0.0-rc1", "2.1-SNAPSHOT", "1.0-1",
+// "1.0.0-beta-2", "1.2.3jre8"). No '.' occurs after the first hyphen or letter: with
+// ".qualifier" / ".number" tokens after a hyphen Maven's own ordering (ComparableVersion,
+// reproduced by the repository's generated fixtures and by deps.dev) is not transitive
+// (0.0.0.alpha < 0.0.0 < 0.0.0-1 < 0.0.0.alpha), so no preorder can be demanded there.
 func mavenValid() *grammar {
 	k := numKind{zeros: true, big: true}
 	return &grammar{
-		minNums: 1, maxNums: 4,
-		sep: func(t *rapid.T) string { return pick(t, []string{".", ".", ".", "-"}) },
+		swapTag: true,
+		minNums: 1, maxNums: 4, sep: dot,
 		num: func(t *rapid.T, _ int) string { return genNum(t, k) },
 		sufs: func(t *rapid.T) []Suf {
 			var out []Suf
 			for n := rapid.SampledFrom([]int{0, 0, 1, 1, 1, 2, 3}).Draw(t, "nsuf"); n > 0; n-- {
-				s := Suf{Sep: pick(t, []string{"-", "-", ".", ""}), Tag: pick(t, mavenTags)}
-				if s.Tag == "" {
-					s.Sep = pick(t, []string{"-", "."})
-					s.Num = genNum(t, k)
-				} else {
-					s.Sep2, s.Num = optNum(t, k, []string{"", "", "-", "."})
+				if oneIn(t, 4) {
+					out = append(out, Suf{Sep: "-", Num: genNum(t, k)})
+					continue
+				}
+				s := Suf{Sep: pick(t, []string{"-", "-", ""}), Tag: pick(t, mavenTags)}
+				s.Sep2, s.Num = optNum(t, k, []string{"", "", "-"})
+				out = append(out, s)
+			}
+			return out
+		},
+		fix: func(v *Ver) {
+			// two qualifiers in a row need a hyphen between them to stay two tokens
+			for i := 1; i < len(v.Sufs); i++ {
+				if v.Sufs[i].Sep == "" && v.Sufs[i-1].Num == "" {
+					v.Sufs[i].Sep = "-"
+				}
+			}
+		},
+	}
+}
+
+var mavenCanonTags = []string{"alpha", "beta", "milestone", "rc", "cr", "snapshot", "ga", "final", "sp",
+	"a", "b", "m", "SNAPSHOT", "RC", "Final", "foo", "xyz", "jre"}
+
+// mavenCanon: the standard layout of mavenValid with int32-sized numbers without leading
+// zeros. (Outside the standard layout deps.dev and Maven's ComparableVersion disagree with
+// each other, e.g. on "0-alpha" vs "0.sp", and deps.dev does not normalise "00".)
+func mavenCanon() *grammar {
+	return &grammar{
+		swapTag: true,
+		minNums: 1, maxNums: 4, sep: dot,
+		num: func(t *rapid.T, _ int) string { return genCanonNum(t) },
+		sufs: func(t *rapid.T) []Suf {
+			var out []Suf
+			for n := rapid.SampledFrom([]int{0, 0, 1, 1, 1, 2}).Draw(t, "nsuf"); n > 0; n-- {
+				if oneIn(t, 4) {
+					out = append(out, Suf{Sep: "-", Num: genCanonNum(t)})
+					continue
+				}
+				s := Suf{Sep: pick(t, []string{"-", "-", ""}), Tag: pick(t, mavenCanonTags)}
+				if !oneIn(t, 3) {
+					s.Sep2, s.Num = pick(t, []string{"", "", "-"}), genCanonNum(t)
 				}
 				out = append(out, s)
 			}
 			return out
 		},
-	}
-}
-
-var mavenCanonTags = []string{"alpha", "beta", "milestone", "rc", "snapshot", "sp"}
-
-func mavenCanon() *grammar {
-	return &grammar{
-		minNums: 1, maxNums: 4, sep: dot,
-		num: func(t *rapid.T, _ int) string { return genCanonNum(t) },
-		sufs: func(t *rapid.T) []Suf {
-			if oneIn(t, 2) {
-				return nil
+		fix: func(v *Ver) {
+			for i := 1; i < len(v.Sufs); i++ {
+				if v.Sufs[i].Sep == "" && v.Sufs[i-1].Num == "" {
+					v.Sufs[i].Sep = "-"
+				}
 			}
-			s := Suf{Sep: "-", Tag: pick(t, mavenCanonTags)}
-			if oneIn(t, 2) {
-				s.Sep2, s.Num = "-", genCanonNum(t)
-			}
-			return []Suf{s}
 		},
 	}
 }
@@ -467,6 +508,7 @@ var gemTags = []string{"a", "b", "rc", "pre", "alpha", "beta", "RC", "x", "z", "
 func rubygemsValid() *grammar {
 	k := numKind{zeros: true, big: true}
 	return &grammar{
+		swapTag: true,
 		minNums: 1, maxNums: 5, sep: dot,
 		num: func(t *rapid.T, _ int) string { return genNum(t, k) },
 		sufs: func(t *rapid.T) []Suf {
@@ -489,6 +531,7 @@ func rubygemsValid() *grammar {
 
 func rubygemsCanon() *grammar {
 	return &grammar{
+		swapTag: true,
 		minNums: 1, maxNums: 5, sep: dot,
 		num: func(t *rapid.T, _ int) string { return genCanonNum(t) },
 		sufs: func(t *rapid.T) []Suf {
@@ -552,6 +595,7 @@ var debRevs = []string{"1", "0", "2", "10", "0ubuntu1", "1ubuntu2", "1ubuntu2.1"
 func debianValid() *grammar {
 	k := numKind{zeros: true, big: true}
 	return &grammar{
+		swapTag: true,
 		epoch:   func(t *rapid.T) string { return pick(t, []string{"", "", "", "", "0:", "1:", "2:", "10:", "01:"}) },
 		minNums: 1, maxNums: 4, sep: dot,
 		num: func(t *rapid.T, _ int) string { return genNum(t, k) },
@@ -594,6 +638,7 @@ var rpmRels = []string{"1", "2", "0", "10", "01", "1.el8", "1.el8_3", "1.el8_10"
 func redhatValid() *grammar {
 	k := numKind{zeros: true, big: true}
 	return &grammar{
+		swapTag: true,
 		epoch:   func(t *rapid.T) string { return pick(t, []string{"", "", "", "", "0:", "1:", "2:", "10:"}) },
 		minNums: 1, maxNums: 4, sep: dot,
 		num: func(t *rapid.T, _ int) string { return genNum(t, k) },
@@ -643,6 +688,7 @@ var apkSufs = []string{"alpha", "beta", "pre", "rc", "cvs", "svn", "git", "hg", 
 func alpineGrammar(canon bool) *grammar {
 	k := numKind{zeros: true, big: true}
 	g := &grammar{
+		swapTag: true,
 		minNums: 1, maxNums: 4, sep: dot,
 		num: func(t *rapid.T, i int) string {
 			if canon {
@@ -790,7 +836,27 @@ func canonGrammar(eco string) *grammar {
 // padding / tie-breaking rules of the comparators are sensitive to.
 func (g *grammar) mutateTail(t *rapid.T, v0 Ver) Ver {
 	v := v0.clone()
-	switch upTo(t, 0, 7) {
+	switch upTo(t, 0, 9) {
+	case 8, 9: // another tag or number in one suffix, everything else kept
+		if len(v.Sufs) == 0 || g.sufs == nil {
+			break
+		}
+		i := upTo(t, 0, len(v.Sufs)-1)
+		for tries := 0; tries < 4; tries++ {
+			ns := g.sufs(t)
+			if len(ns) == 0 {
+				continue
+			}
+			d := ns[upTo(t, 0, len(ns)-1)]
+			if g.swapTag && d.Tag != "" && v.Sufs[i].Tag != "" && oneIn(t, 2) {
+				v.Sufs[i].Tag = d.Tag
+			} else if d.Num != "" && v.Sufs[i].Num != "" {
+				v.Sufs[i].Num = d.Num
+			} else {
+				continue
+			}
+			break
+		}
 	case 0, 1: // one more number
 		if len(v.Nums) < g.maxNums {
 			nn := "0"
@@ -859,10 +925,13 @@ func GenCanonPair(t *rapid.T, eco string) (string, string) {
 	g := canonGrammar(eco)
 	a := g.gen(t)
 	var b Ver
-	if oneIn(t, 4) {
+	switch upTo(t, 0, 7) {
+	case 0:
 		b = g.gen(t)
-	} else {
+	case 1, 2, 3:
 		b = g.mutate(t, a)
+	default:
+		b = g.mutateTail(t, a)
 	}
 	if g.pairFix != nil {
 		g.pairFix(a, &b)
